@@ -115,10 +115,19 @@ def main(argv=None):
     try:
         mod = importlib.import_module("cvh.props." + a.prop)
         if a.replay:
-            mod.replay(ctx, a.replay)
+            from . import campaign
+            r = mod.replay(ctx, a.replay) if hasattr(mod, "replay") else campaign.replay(ctx, a.replay)
+            if r is None:
+                print("replay: this kind of case is re-created by the property's own generator; running the quick check instead")
+                mod.run(ctx)
+            else:
+                print("replay: the recorded violation %s" % ("REPRODUCES" if r else "does not reproduce on this tree"))
+                if r:
+                    ctx.violations.append({"sig": {"clause": "replay"}, "replay": a.replay})
         else:
             mod.run(ctx)
-        write_evidence(ctx, getattr(mod, "LEVEL", "model_checking"), getattr(ctx, "extra", None))
+        if not a.replay:
+            write_evidence(ctx, getattr(mod, "LEVEL", "model_checking"), getattr(ctx, "extra", None))
     except tlc.MachineryError as e:
         print("MACHINERY: %s" % (e,))
         return 2
